@@ -99,6 +99,14 @@ CLAIMS = {
              "histories of length 7 over the full alphabet are executed on real BrownianStock/HestonStock/EuropeanOption objects with the projected state compared after every call and the dtype of "
              "payoff/features/listed price/hedge/P&L/loss/cash compared at the end; seeded random real runs are validated line by line by DtypeTrace.tla.",
         note="Trusted: TLC, torch. CPU only (device modelled, not exercised). Half-precision backend gaps end the judged part of a history."),
+    "C18": dict(
+        engine="BSCases.tla / TLC -> replay on representatives",
+        technique="TLA+ abstract machine over IEEE special values x exact linear forms, formula DAGs of the bs_* functions transcribed and evaluated by TLC for every boundary case; replay on concrete representatives; hedger finiteness",
+        category=MC, design_ref="DESIGN.md 3 C18",
+        text="TLC evaluates the transcribed DAGs (d1/d2 guards, 0/0 guards, where-selection) over nan/inf/sign classes and linear forms in S, K, M for all 24 boundary cases and checks NoNaN, "
+             "PriceIsIntrinsic and DeltaLimit; every case is replayed on concrete representatives (3 strikes, |log-moneyness| 0.1..50, exact and tiny zeros, mixed tensors) into 19 functional/module "
+             "entry points against the exact limit; negative arguments must raise ValueError; BlackScholes and WhalleyWilmott hedgers must be finite on 4 option types x 2 underliers incl. paths ending at the strike.",
+        note="Trusted: TLC, the transcription of the formula DAGs (updated together with the two fix: commits). Known finding: bs_lookback_delta (an automatic derivative) is NaN at t=0/v=0."),
     "C19": dict(
         engine="Bisect.tla (PlusCal) / TLC -> exact trajectory replay",
         technique="PlusCal algorithm of bisect() model-checked over all monotone tables on a grid (safety + termination); every behaviour replayed with the evaluation-point trajectory compared exactly; postcondition on continuous families and implied volatility",
